@@ -201,6 +201,12 @@ def quantified_shapes():
            ("forall", qa, ("exists", qb, ("Iff", a, b))), ("exists", qa, ("forall", qa, ("Or", a, b))),
            ("And", a, ("exists", qa, ("Implies", a, b))), ("Or", b, ("forall", qb, ("Implies", a, b))),
            ("forall", [("a", BOOL), ("b", BOOL)], ("Or", a, b, c)),
+           # blocks of several variables whose witnesses differ per variable
+           ("exists", [("a", BOOL), ("b", BOOL)], ("Not", ("Iff", a, b))), ("exists", [("a", BOOL), ("b", BOOL)], ("And", a, ("Not", b))),
+           ("forall", [("a", BOOL), ("b", BOOL)], ("Iff", a, b)),
+           ("exists", [("a", BOOL), ("b", BOOL)], ("And", ("Not", ("Iff", a, b)), ("Implies", a, c))),
+           ("forall", [("a", BOOL), ("b", BOOL), ("c", BOOL)], ("Or", ("Not", a), b, ("Not", c))),
+           ("And", c, ("exists", [("a", BOOL), ("b", BOOL)], ("And", ("Or", a, b), ("Not", ("And", a, b)), ("Iff", a, c)))),
            ("Not", ("And", ("exists", qa, a), ("forall", qa, ("Or", a, b)))),
            ("And", ("forall", qa, ("Or", a, b)), ("forall", qa, ("Or", a, c)), ("exists", qa, ("And", a, c))),
            ("forall", qa, ("And", b, c)), ("exists", qa, ("exists", qb, ("And", a, b, c))),
